@@ -5,7 +5,7 @@ from vlib.kani import Harness
 from . import rt_common as rc
 
 A = 'crates/guest-rust/src/rt/async_support.rs'
-B = 'one registered waitable at most (two-slot map model), scripted Rust work, one executor step per harness'
+B = 'one registered waitable (two in one obligation) (two-slot map model), scripted Rust work, one executor step per harness'
 T = 'TaskState::{new, callback, remaining_work, deliver_waitable_event, with_p3_task_set, drop} (%s)' % A
 HARNESSES = [
     Harness('c22_callback_code_encoding', 'encode.exit0_yield1_wait2_set_in_upper_bits', 'CallbackCode::encode (%s)' % A),
@@ -24,7 +24,15 @@ HARNESSES = [
     Harness('c22_callback_wrapper_puts_state_back_unless_exit', 'wrapper.callback_puts_same_state_back_unless_exit', 'callback (%s)' % A, bounded=B),
     Harness('c22_callback_wrapper_releases_once_on_exit', 'wrapper.callback_releases_task_once_on_exit', 'callback (%s)' % A, bounded=B),
     Harness('c22_callback_wrapper_cancel_releases_once', 'wrapper.cancel_releases_task_once_destructors_see_task', 'callback, TaskState::drop (%s)' % A, bounded=B),
+    Harness('c22_two_waitables_exit_only_after_both_completed', 'step.two_waitables_exit_only_after_both', T, bounded='two registered waitables, either completion order, finished work'),
+    Harness('c22_block_on_ready_future_returns_without_waiting', 'block_on.ready_future_returns_without_waiting', 'block_on (%s)' % A, bounded=B),
+    Harness('c22_block_on_waits_on_own_set_until_the_event_then_returns', 'block_on.waits_on_own_set_delivers_event_once_returns', 'block_on (%s)' % A, bounded=B + '; two loop iterations'),
     Harness('c22_register_unregister_keep_map_and_set_in_step', 'cabi.register_unregister_keep_map_and_set_in_step', 'SharedTaskState::{waitable_register, waitable_unregister, add_waitable} (%s)' % A, bounded=B),
+]
+
+
+THOROUGH = [
+    Harness('c22t_three_step_history_start_event_yield_exit', 'history.start_event_yield_exit', 'start_task, callback x2 (%s)' % A, bounded=B + '; one three-step history'),
 ]
 
 
@@ -36,6 +44,6 @@ def run(rep, tier):
                'enumerated exhaustively; event codes are symbolic where the step reads them',
                'under the model checker only, the task\'s waitable map is a two-slot finite map kept in a static (hook 6328f56, harness/btmodel.rs): '
                'BTreeMap insert/remove/is_empty are trusted, at most one task exists per harness',
-               'not covered: block_on, spawned work (feature async-spawn, FuturesUnordered), TaskCancelOnDrop, more than one registered waitable')
-    kani.run_harnesses(rep, rc.CRATE, HARNESSES, rc.FEATURES, rc.TARGET, harness_file='/verif/harness/c22.rs', timeout_each=900)
+               'not covered: block_on beyond two loop iterations, spawned work (feature async-spawn, FuturesUnordered), TaskCancelOnDrop, more than one registered waitable')
+    kani.run_harnesses(rep, rc.CRATE, HARNESSES + (THOROUGH if tier == 'thorough' else []), rc.FEATURES, rc.TARGET, harness_file='/verif/harness/c22.rs', timeout_each=(2400 if tier == 'thorough' else 900))
     rep.functions.append(A + ' (real code, driven in place by in-crate harnesses /verif/harness/c22.rs)')
